@@ -374,10 +374,6 @@ func H_C07_UtxoStore() {
 	check := func(crashed bool, durable, pending int, stale map[int]bool, fail func(label string)) {
 		db := open()
 		at := h07_tip(t, db)
-		// known finding: undo files are named by height alone. A snapshot of tip T stays on disk while T is disconnected
-		// and a competing block of the same height is connected - that block's undo data replaces T's. A crash before
-		// the next snapshot brings the store up at T with an undo file that is not T's.
-		zzverif.Known("C07-undo-file-of-other-branch", crashed && stale[at])
 		ok := at >= 0 && (at == durable || at == pending)
 		if !crashed {
 			ok = at == target
@@ -390,7 +386,11 @@ func H_C07_UtxoStore() {
 			fail("C07.utxo.reopen.state-is-replay")
 			return
 		}
-		// feeding the remaining blocks: same final state as the uninterrupted run
+		// feeding the remaining blocks: same final state as the uninterrupted run.
+		// known finding: undo files are named by height alone. A snapshot of tip T stays on disk while T is disconnected
+		// and a competing block of the same height is connected - that block's undo data replaces T's. A crash before
+		// the next snapshot brings the store up at T with an undo file that is not T's.
+		zzverif.Known("C07-undo-file-of-other-branch", crashed && stale[at])
 		moved := !zzverif.Panics(func() { h07_move(t, db, at, target) })
 		if !moved || h07_tip(t, db) != target || !h17_same(h17_state(db, ids), t[target].state) {
 			fail("C07.utxo.catch-up.state")
